@@ -47,6 +47,7 @@ type Gen struct {
 	tracedArgTypes map[string][]types.Type
 	modDirty    bool
 	funcSet     map[*ssa.Function]bool
+	ctCache     map[*ssa.Function]ctEntry
 }
 
 type loopStmt struct {
@@ -526,7 +527,7 @@ func load(repo string) (*Gen, error) {
 	g := &Gen{fset: pkgs[0].Fset, pkgs: pkgs, byPath: map[string]*packages.Package{}, allTypes: map[string]*types.Package{},
 		filesByName: map[string]*ast.File{}, funcIDs: map[string]int{}, typeByKey: map[string]types.Type{},
 		modCache: map[*ssa.Function]*ModSet{}, modBusy: map[*ssa.Function]bool{}, traced: map[string]bool{}, loopCache: map[*ssa.Function][]loopStmt{},
-		tracedArgTypes: map[string][]types.Type{}}
+		tracedArgTypes: map[string][]types.Type{}, ctCache: map[*ssa.Function]ctEntry{}}
 	g.sizes = types.SizesFor("gc", "amd64")
 	var nerr int
 	packages.Visit(pkgs, nil, func(p *packages.Package) {
